@@ -121,14 +121,17 @@ inductive VKind where
 
 /-- `concatStrings(lhs, rhs)` reduced to kinds.  `guard`: the "plain string, then f-string" branch tests
     `len(rhs.FString.Vars) == 0` before it touches `Vars[0]` (a regenerated fact; false before the fix). -/
-def concatKindsWith (guard : Bool) : VKind → VKind → Except PErr VKind
-  | .fstr m, .fstr n => .ok (if n = 0 then .fstr m else .fstr (m + n))
+def concatKindsWith (guard guardBoth : Bool) : VKind → VKind → Except PErr VKind
+  | .fstr m, .fstr n =>
+    -- `if len(rhs.FString.Vars) == 0 { … return lhs }`, then `rhs.FString.Vars[0]` (also a regenerated fact)
+    if n = 0 then (if guardBoth then .ok (.fstr m) else .error (.runtime 0)) else .ok (.fstr (m + n))
   | .fstr m, .plain => .ok (.fstr m)
   | .plain, .fstr n => if n = 0 ∧ guard = false then .error (.runtime 0) else .ok (.fstr n)   -- rhs.FString.Vars[0]
   | .plain, .plain => .ok .plain
   | _, _ => .error (.runtime 1)                                                 -- String[1:len-1] of ""
 
-def concatKinds : VKind → VKind → Except PErr VKind := concatKindsWith C19.concatGuardsBareFString
+def concatKinds : VKind → VKind → Except PErr VKind :=
+  concatKindsWith C19.concatGuardsBareFString C19.concatGuardsBothFString
 
 /-- `findBrace`: index of the next `{` that opens a variable (`{{` and `${` do not). -/
 def findBrace : List UInt8 → UInt8 → Nat → Option Nat
